@@ -20,8 +20,15 @@ D1_KINDS = {"quick": ("R4", "R5", "R10"), "thorough": None}
 SUPPORTED = set(V.SUPPORTED) - {"5.6.2", "5.6.4"}
 
 
+# input objects with required fields at several depths (argument, nested in a list, in a fragment, in a directive argument)
+EXTRA_SEEDS = [
+    "{ span(r: {from: 1, to: 2, tags: []}, rs: [{from: 1, to: 2, tags: [\"t\"]}]) num }",
+    "{ ...SP } fragment SP on Query { span(rs: {from: 3, to: 4, tags: [\"u\"], step: 2}) color @dq(p: {a: 1}) }",
+]
+
+
 def all_seeds():
-    return seeds.K_DOCS + seeds.K_MUTATIONS + seeds.K_SUBSCRIPTIONS
+    return seeds.K_DOCS + seeds.K_MUTATIONS + seeds.K_SUBSCRIPTIONS + EXTRA_SEEDS
 
 
 def shards(tier, seed):
